@@ -34,6 +34,28 @@
 //! Non-trivial: the query returned rows natively and was compared through a foreign plan with at least one
 //! foreign table scan, or the direct scan had a non-trivial projection / filter / limit.
 //!
+//! GENUINE FINDINGS (open in /verif/known_findings.json, cases under regressions/C45/c45c/):
+//!  * `udaf-default-value-not-carried` — wrong rows with a foreign `count` in a decorrelated scalar subquery
+//!    (see c45b.rs). Attribution is verified in the run: the same case with the aggregates whose value over no
+//!    rows is not NULL kept native must agree with the native rows, otherwise it is an ordinary violation.
+//!  * `ffi-provider-unserializable-filter` — `ForeignTableProvider::supports_filters_pushdown` serialises the
+//!    candidate filters with datafusion-proto and propagates the failure; `x = ANY (subquery)` in a select list
+//!    produces an `outer_ref(..)` candidate → "Optimizer rule 'push_down_filter' failed .. Proto serialization
+//!    error: outer_ref(r3.id) is not yet supported", while the provider used natively plans fine. Attribution is
+//!    verified in the run (same case with pushdown disabled must plan and agree). Repair:
+//!    fixes/C45-ffi-provider-unserializable-filter.diff.
+//!
+//! Sensitivity probes (probes/probes.diff via tools/mutrun, quick tier):
+//!  p3  FFI_Partitioning maps Hash to UnknownPartitioning   → VIOLATION "plan properties of AggregateExec differ across the FFI"
+//!  p4  ForeignTableProvider::scan drops the limit           → VIOLATION "scan arguments changed across the FFI: sent .. limit: Some(0) received .. None"
+//!  p5  .. sorts the projection                              → VIOLATION "scan arguments changed .. projection: Some([1, 0]) received Some([0, 1])"
+//!  p13 ForeignTableFunction drops the last argument         → VIOLATION "SELECT * FROM range(DATE .., DATE .., INTERVAL '1' DAY): native Ok(9) foreign Err(..)"
+//!  p15 provider answers supports_filters_pushdown reversed  → VIOLATION "native [Exact, Inexact] foreign [Inexact, Exact]"
+//!  p16 ForeignExecutionPlan::execute always asks partition 0 → RepartitionExec panics inside the extern "C" entry: process
+//!      abort (exit 134 → `./check` exit 2): detected as a crash, not as a verdict
+//!  p17 FFI_PlanProperties drops the output ordering         → VIOLATION "plan properties of SortExec differ across the FFI"
+//!  p18 EmissionType::Final sent as Incremental              → VIOLATION "plan properties of ProjectionExec differ across the FFI"
+//!
 //! Soundness notes: functions whose behaviour lives in `simplify()` (coalesce, nvl, nvl2, now,
 //! current_date, current_time, ...) cannot work through `ForeignScalarUDF`, which does not carry `simplify`;
 //! they are left native in the foreign context (listed in `assumptions`). Error texts are not compared.
